@@ -451,16 +451,35 @@ type balancewriter struct {
 	writers     []PointsWriter
 	stats       []writerStats
 	defaultTags models.StatisticTags
+	mu          sync.Mutex // protects i
 	i           int
 }
 
 func (b *balancewriter) WritePoints(p *coordinator.WritePointsRequest) error {
 	var lastErr error
-	for range b.writers {
+	n := len(b.writers)
+	// The balancewriter is shared by all the writer goroutines of a subscription
+	// (write-concurrency), so a call must not walk the destinations through the
+	// shared cursor: ALL visits every destination once, ANY takes its first
+	// destination from the cursor and keeps the cursor one past the destination
+	// it is trying.
+	start := 0
+	if b.bm == ANY && n > 0 {
+		b.mu.Lock()
+		start = b.i
+		b.i = (start + 1) % n
+		b.mu.Unlock()
+	}
+	for k := 0; k < n; k++ {
 		// round robin through destinations.
-		i := b.i
+		i := (start + k) % n
 		w := b.writers[i]
-		b.i = (b.i + 1) % len(b.writers)
+		if b.bm == ANY && k > 0 {
+			// failing over: the next batch starts behind this destination.
+			b.mu.Lock()
+			b.i = (i + 1) % n
+			b.mu.Unlock()
+		}
 
 		// write points to destination.
 		err := w.WritePoints(p)
